@@ -49,10 +49,15 @@ def _literal(v, style):
     return t if float(t) == v and (math.copysign(1.0, float(t)) == math.copysign(1.0, v)) else r
 
 
-def _get(path, params, style="repr"):
+def _get(path, params, style="repr", order=0):
     c = _client()
     q = {k: (_literal(v, style) if isinstance(v, float) else v) for k, v in params.items() if v is not None}
-    url = path + "?" + urlencode(q)
+    items = list(q.items())
+    if order:
+        # the order of the parameters in a query string carries no meaning: any permutation is the same query
+        import random
+        random.Random(int(order)).shuffle(items)
+    url = path + "?" + urlencode(items)
     resp = c.get(url)
     if resp.status_code != 200:
         raise Fail("%s returned status %d" % (path, resp.status_code), expected=200, observed={"url": url, "body": resp.get_data(as_text=True)[:300]},
@@ -94,7 +99,7 @@ def check_vincinv(case):
     params = dict(args)
     params["from_angle_type"] = case["from"]
     params["to_angle_type"] = case["to"]
-    url, got = _get("/vincinv", params, case.get("lit", "repr"))
+    url, got = _get("/vincinv", params, case.get("lit", "repr"), case.get("order", 0))
     if got != want:
         raise Fail("/vincinv does not return exactly the library's values for the same arguments",
                    expected=want, observed={"url": url, "json": got}, bucket="vincinv values")
@@ -112,7 +117,7 @@ def check_vincdir(case):
     params["ell_dist"] = case["ell_dist"]
     params["from_angle_type"] = case["from"]
     params["to_angle_type"] = case["to"]
-    url, got = _get("/vincdir", params, case.get("lit", "repr"))
+    url, got = _get("/vincdir", params, case.get("lit", "repr"), case.get("order", 0))
     if got != want:
         raise Fail("/vincdir does not return exactly the library's values for the same arguments",
                    expected=want, observed={"url": url, "json": got}, bucket="vincdir values")
@@ -178,12 +183,13 @@ def _angle(lim, dmax, signed=True, extra=()):
     return st.tuples(x, f).map(list)
 
 
+order_s = st.one_of(st.just(0), st.integers(1, 10 ** 6))       # canonical order of the query parameters, or a permutation of it
 lit_s = st.sampled_from(["repr", "repr", "repr", "int", "int", "plus", "exp", "EXP", "zeros", "lead0"])
 
 
 @st.composite
 def inv_cases(draw):
-    c = {"from": draw(atype), "to": draw(atype), "lit": draw(lit_s)}
+    c = {"from": draw(atype), "to": draw(atype), "lit": draw(lit_s), "order": draw(order_s)}
     c["lat1"] = draw(_angle(90.0, 89, extra=[-37.8, 45.0, 90.0, -90.0]))
     c["lon1"] = draw(_angle(180.0, 179, extra=[144.9, -179.5, 179.5]))
     c["lat2"] = draw(_angle(90.0, 89, extra=[-37.8]))
@@ -199,7 +205,7 @@ def inv_cases(draw):
 
 @st.composite
 def dir_cases(draw):
-    c = {"from": draw(atype), "to": draw(atype), "lit": draw(lit_s),
+    c = {"from": draw(atype), "to": draw(atype), "lit": draw(lit_s), "order": draw(order_s),
          "ell_dist": draw(st.one_of(S.floats(0.0, 2e7), S.log_uniform(1e-3, 2e7), st.sampled_from([0.0, 54972.271, 1e7]),
                                     st.integers(0, 20000000).map(float)))}
     c["lat1"] = draw(_angle(90.0, 89, extra=[-37.57037203, 90.0]))
@@ -223,7 +229,7 @@ _TYPES = ["dd", "dms", None]
 def _inv_fill(u):
     f, r = S.u_pick(u[4], _TYPES)
     t, r = S.u_pick(r, _TYPES)
-    return {"from": f, "to": t, "lit": "repr", "lat1": _pair(-90.0 + 180.0 * u[0], 89), "lon1": _pair(-180.0 + 360.0 * u[1], 179),
+    return {"from": f, "to": t, "lit": "repr", "order": int(r * 1000) % 7, "lat1": _pair(-90.0 + 180.0 * u[0], 89), "lon1": _pair(-180.0 + 360.0 * u[1], 179),
             "lat2": _pair(-90.0 + 180.0 * u[2], 89), "lon2": _pair(-180.0 + 360.0 * u[3], 179)}
 
 
@@ -231,7 +237,7 @@ def _dir_fill(u):
     f, r = S.u_pick(u[4], _TYPES)
     t, r = S.u_pick(r, _TYPES)
     dist = 2e7 * u[3] if r < 0.5 else 10.0 ** (-3.0 + 10.301 * u[3])
-    return {"from": f, "to": t, "lit": "repr", "ell_dist": dist, "lat1": _pair(-90.0 + 180.0 * u[0], 89),
+    return {"from": f, "to": t, "lit": "repr", "order": int(r * 1000) % 7, "ell_dist": dist, "lat1": _pair(-90.0 + 180.0 * u[0], 89),
             "lon1": _pair(-180.0 + 360.0 * u[1], 179), "azimuth1to2": _pair(360.0 * u[2], 359)}
 
 
@@ -245,6 +251,7 @@ def _classes(case):
     south = lat[1][0] if case["from"] == "dms" else lat[0] < 0
     out.append("southern" if south else "northern")
     out.append("literal:" + case.get("lit", "repr"))
+    out.append("parameters in canonical order" if not case.get("order") else "parameters permuted")
     return out
 
 
